@@ -262,7 +262,7 @@ def thevenin(net, case, lv_tol_percent=10, bus_level_k=False, ignore_inside=Fals
                 rx = float(mo.at[m, "rx"])
                 x = zm / math.sqrt(1. + rx * rx)
                 Y[idx[node_of[b]], idx[node_of[b]]] += vn[b] ** 2 / complex(rx * x, x)
-                src.add(idx[node_of[b]])
+                # a motor feeds a fault but does not energise an island on its own (no src.add)
         # components connected to a source
         live = set()
         stack = list(src)
